@@ -641,3 +641,10 @@ mutant('C07', 'table-gcm2', UN, "'gcm^2': 1e-7,", "'gcm^2': 1e-6,", 'C07.dep.tab
 mutant('C07', 'timer-duration-raw', TM, "((current_time - self.start_time) <= self.duration)", "((current_time - self.start_time).value <= self.duration.value)", 'C07.raw')
 benign('C07', 'sign-test-on-raw-value', DC, "        if no_load_speed.value <= 0:", "        if no_load_speed.to('rad/s').value <= 0:")
 benign('C07', 'explicit-SI-conversion', SG, "contact_pressure.to('Pa').value", "contact_pressure.to('MPa').value*1e6")
+
+# ---- gaps found by the AST mutation sweep (tools/mutation_sweep.py) and closed
+mutant('C13', 'fresh-start-begins-locked', SV, "            self.__powertrain_is_locked = False\n            self.__powertrain.update_time(initial_time)", "            self.__powertrain_is_locked = True\n            self.__powertrain.update_time(initial_time)", 'C13.only-if')
+mutant('C13', 'lock-decision-before-propagation', SV, "        self._compute_angular_position_and_speed()\n        self._check_powertrain_is_locked()\n", "        self._check_powertrain_is_locked()\n        self._compute_angular_position_and_speed()\n", 'C13.clamp')
+mutant('C01', 'lock-decision-before-propagation', SV, "        self._compute_angular_position_and_speed()\n        self._check_powertrain_is_locked()\n", "        self._check_powertrain_is_locked()\n        self._compute_angular_position_and_speed()\n", 'C01.order')
+mutant('C02', 'motor-law-on-wrong-element', SV, "        self.__powertrain.elements[0].compute_torque()", "        self.__powertrain.elements[1].compute_torque()", 'C02.motor')
+mutant('C17', 'current-computed-on-wrong-element', SV, "        if self.__powertrain.elements[0].electric_current_is_computable:\n            self.__powertrain.elements[0].compute_electric_current()", "        if self.__powertrain.elements[0].electric_current_is_computable:\n            self.__powertrain.elements[1].compute_electric_current()", 'C17.computed')
